@@ -58,3 +58,52 @@ def _drop_markers(node):
     for i in node["c"]:
         if i["t"] == "e":
             _drop_markers(i["e"])
+
+
+def split_q(name):
+    if ":" in name:
+        p, l = name.split(":", 1)
+        return p, l
+    return "", name
+
+
+def raw_split(node):
+    """parse_raw tree -> Xml.tla rnode (qualified names split at the colon)."""
+    p, l = split_q(node["n"])
+    attrs = []
+    for an, v in node["a"]:
+        if an == "xmlns":
+            attrs.append({"p": "xmlns", "l": "", "v": v})       # default namespace (outside the quantifier)
+        else:
+            ap, al = split_q(an)
+            attrs.append({"p": ap, "l": al, "v": v})
+    items = []
+    for it in node["c"]:
+        if it["t"] == "e":
+            items.append({"t": "e", "e": raw_split(it["e"]), "s": []})
+        elif it["t"] == "t":
+            items.append({"t": "t", "e": 0, "s": it["s"]})
+    return {"p": p, "l": l, "a": attrs, "c": items}
+
+
+XML_URI = "http://www.w3.org/XML/1998/namespace"
+
+
+def tree_proj(n):
+    """Real node -> Xml.tla tnode."""
+    import re
+    extras = []
+    for k, v in n.extras.items():
+        m = re.match(r"^\{(.*)\}(.*)$", k)
+        if m:
+            extras.append({"uri": codes(m.group(1)), "local": m.group(2), "v": codes(v), "prefixed": False})
+        elif ":" in k:
+            p, l = k.split(":", 1)
+            uri = XML_URI if p == "xml" else n.nsmap.get(p)
+            extras.append({"uri": codes(uri), "local": l, "v": codes(v), "prefixed": uri is not None})
+        else:
+            extras.append({"uri": [-1], "local": k, "v": codes(v), "prefixed": False})
+    return {"name": n.name, "prefix": "" if n.prefix is None else n.prefix,
+            "ns": [[k, codes(u)] for k, u in n.nsmap.items() if k is not None],
+            "attrs": [[k, codes(v)] for k, v in n.attributes.items()], "extras": extras,
+            "content": codes(n.content), "tail": codes(n.tail), "kids": [tree_proj(c) for c in n.children]}
